@@ -32,69 +32,7 @@
 #include "simos.h"
 #include "simreal.h"
 
-/* ------------------------------------------------------------------ in-memory file with fault hooks */
-typedef struct {
-	sqfs_file_t base;
-	const uint8_t *data;
-	size_t size;
-	long *calls;          /* shared call counter */
-	const long *fail;     /* ordinals at which read_at fails */
-	size_t nfail;
-	int *hit;             /* set when a fault fired */
-} memfile_t;
-
-static void mem_destroy(sqfs_object_t *o) { free(o); }
-
-static sqfs_object_t *mem_copy(const sqfs_object_t *o)
-{
-	memfile_t *c = malloc(sizeof(*c));
-	if (c)
-		memcpy(c, o, sizeof(*c));
-	return (sqfs_object_t *)c;
-}
-
-static int mem_read_at(sqfs_file_t *f, sqfs_u64 off, void *buf, size_t size)
-{
-	memfile_t *m = (memfile_t *)f;
-	if (m->calls) {
-		long k = ++(*m->calls);
-		for (size_t i = 0; i < m->nfail; i++)
-			if (m->fail[i] == k) {
-				if (m->hit)
-					*m->hit = 1;
-				return SQFS_ERROR_IO;
-			}
-	}
-	if (off > m->size || size > m->size - off)
-		return SQFS_ERROR_OUT_OF_BOUNDS;
-	memcpy(buf, m->data + off, size);
-	return 0;
-}
-
-static int mem_write_at(sqfs_file_t *f, sqfs_u64 off, const void *buf, size_t size)
-{
-	(void)f; (void)off; (void)buf; (void)size;
-	return SQFS_ERROR_UNSUPPORTED;
-}
-
-static sqfs_u64 mem_get_size(const sqfs_file_t *f) { return ((const memfile_t *)f)->size; }
-static int mem_truncate(sqfs_file_t *f, sqfs_u64 s) { (void)f; (void)s; return SQFS_ERROR_UNSUPPORTED; }
-static const char *mem_filename(sqfs_file_t *f) { (void)f; return "mem"; }
-
-static sqfs_file_t *memfile_create(const uint8_t *data, size_t size, long *calls, const long *fail, size_t nfail, int *hit)
-{
-	memfile_t *m = calloc(1, sizeof(*m));
-	m->base.base.refcount = 1;
-	m->base.base.destroy = mem_destroy;
-	m->base.base.copy = mem_copy;
-	m->base.read_at = mem_read_at;
-	m->base.write_at = mem_write_at;
-	m->base.get_size = mem_get_size;
-	m->base.truncate = mem_truncate;
-	m->base.get_filename = mem_filename;
-	m->data = data; m->size = size; m->calls = calls; m->fail = fail; m->nfail = nfail; m->hit = hit;
-	return (sqfs_file_t *)m;
-}
+#include "memfile.h"
 
 /* ------------------------------------------------------------------ hashing */
 static uint64_t H(uint64_t h, const void *p, size_t n)
